@@ -5,6 +5,7 @@ import (
 	"fmt"
 	"hash/fnv"
 	"os"
+	"path"
 	"path/filepath"
 	"strings"
 
@@ -446,6 +447,26 @@ func c14Run(c *core.Ctx) *core.Result {
 	}
 	usePatterns := len(fl.Include)+len(fl.Exclude) > 0
 
+	// names a copier might derive from the name of the file it writes
+	// (temporary, backup or swap files next to it): a destination symlink of
+	// such a name is an unrelated entry, not a place to write through
+	if dr := core.NewRand(core.Mix(c.Seed, "C14-derived-names", c.Index)); dr.P(1, 6) {
+		ddirs := []string{""}
+		for _, e := range dstT.Entries {
+			if e.Type == tree.Dir {
+				ddirs = append(ddirs, e.Path)
+			}
+		}
+		for i := 0; i < 6; i++ {
+			nm := fmt.Sprintf(core.Pick(dr, []string{".%s.tmp", "%s.tmp", ".%s.swp", "%s~", ".tmp.%s", ".%s.new", "%s.part", ".%s.tmp"}), core.Pick(dr, []string{"a", "b", "d", "l"}))
+			pth := relJoin(core.Pick(dr, ddirs), nm)
+			if dstT.Get(pth) == nil {
+				dstT.Put(tree.Entry{Path: pth, Type: tree.Symlink, Perm: 0777, Mtime: 1_270_000_000_000_000_000, Target: core.Pick(dr, []string{"/outside/a", "/outside/d/b", "/" + cn + "/sib/a", "/outside/d/not-yet", "../../outside/a"})})
+			}
+		}
+		dstT.Sort()
+		r.Count("destinations_with_symlinks_at_derived_names", 1)
+	}
 	if err := tree.Materialise(srcRoot, srcT); err != nil {
 		r.Inconclusive = "materialise src: " + err.Error()
 		return r
@@ -582,6 +603,29 @@ func c14Run(c *core.Ctx) *core.Result {
 		}
 	}
 	cerr := runCopy(srcRoot, srcArg, dstRoot, dstArg, fl)
+	// a wildcard is matched in the directory its literal prefix names; a
+	// symlink (that stays inside the root) as the last component of that
+	// prefix is a path argument like any other: "link/f*" must find what
+	// "link/f1" finds. Narrow clause: only the verdict "no matches" is judged.
+	if cerr != nil && fl.Wild && strings.Contains(cerr.Error(), "no matches found") && !hasInnerDotDot(srcArg) {
+		if i := strings.LastIndex(srcArg, "/"); i > 0 && !strings.ContainsAny(srcArg[:i], "*?[\\") && strings.ContainsAny(srcArg[i+1:], "*?[") && !strings.Contains(srcArg[i+1:], "\\") {
+			pre := chrootResolve(srcB, srcArg[:i], true)
+			if pre.Err == "" && pre.Ambig == "" && pre.Exists && pre.Type == tree.Dir && pre.Links > 0 {
+				var hits []string
+				for _, e := range srcB.Entries {
+					if tree.Parent(e.Path) == pre.Path {
+						if ok, err := path.Match(srcArg[i+1:], tree.Base(e.Path)); err == nil && ok {
+							hits = append(hits, e.Path)
+						}
+					}
+				}
+				r.Count("wildcards_below_a_symlinked_directory", 1)
+				if len(hits) > 0 {
+					r.Violate("wildcard-below-symlink-no-match", "src=%q dst=%q [%s]: the copy reports %q, but %q resolves (through %d symlink(s), inside the source root) to the directory %q, which holds the matching entries %q", srcArg, dstArg, fl, cerr.Error(), srcArg[:i], pre.Links, "/"+pre.Path, hits)
+				}
+			}
+		}
+	}
 
 	outA, _, dstA, err := snap()
 	if err != nil {
